@@ -44,7 +44,7 @@ func raceScenario(ev *Evidence) ([]string, error) {
 	seen := map[string]bool{}
 	var viol []string
 	runs := 0
-	for _, sc := range [][2]string{{"0", "^TestVerifRace$"}, {"1", "^TestVerifRace$"}, {"0", "^TestVerifRaceState$"}, {"0", "^TestVerifRaceTimers$"}, {"1", "^TestVerifRaceTimers$"}, {"0", "^TestVerifRaceEvents$"}, {"0", "^TestVerifRaceConn$"}, {"0", "^TestVerifRaceRelogon$"}} {
+	for _, sc := range [][2]string{{"0", "^TestVerifRace$"}, {"1", "^TestVerifRace$"}, {"0", "^TestVerifRaceState$"}, {"0", "^TestVerifRaceTimers$"}, {"1", "^TestVerifRaceTimers$"}, {"0", "^TestVerifRaceEvents$"}, {"0", "^TestVerifRaceConn$"}, {"0", "^TestVerifRaceRelogon$"}, {"0", "^TestVerifRaceStopEarly$"}} {
 		side := sc[0]
 		c := exec.Command(bin, "-test.run", sc[1], "-test.count=1", "-test.timeout=60s")
 		c.Dir = dir
@@ -83,8 +83,10 @@ func raceScenario(ev *Evidence) ([]string, error) {
 				top := ""
 				for _, ln := range strings.Split(sec, "\n") {
 					if m := raceFrameRe.FindStringSubmatch(ln); m != nil && strings.HasPrefix(m[1], repoDir+"/") {
+						// the innermost frame inside the module decides whose access this is: an access
+						// made by harness/test code (e.g. a callback the library invoked) is not the library's
 						if strings.Contains(m[1], "zz_verif_") || strings.HasSuffix(m[1], "_test.go") {
-							continue
+							break
 						}
 						top = strings.TrimPrefix(m[1], repoDir+"/") + ":" + m[2]
 						break
@@ -94,8 +96,8 @@ func raceScenario(ev *Evidence) ([]string, error) {
 					tops = append(tops, strings.ToLower(kind)+" "+top)
 				}
 			}
-			if len(tops) == 0 {
-				continue // a race entirely inside the harness/test code
+			if len(tops) < 2 {
+				continue // at least one of the two accesses is made by harness/test code: not a race inside the library
 			}
 			sort.Strings(tops)
 			l := "data race: " + strings.Join(tops, " <-> ")
@@ -107,7 +109,7 @@ func raceScenario(ev *Evidence) ([]string, error) {
 	}
 	ev.Coverage["race_detector_runs"] = runs
 	ev.Coverage["race_build_seconds"] = round3(buildS)
-	ev.Coverage["race_scenario"] = "TestVerifRace (harness/session/race_test.go): 3 application senders, a writer loop, the inbound dispatch goroutine (TestRequest, Heartbeat, ResendRequest; then 2.3 s of silence so that the silence timer expires), state queries, event registration, both real timer goroutines with HeartBtInt=1, Session.Stop; both roles. TestVerifRaceTimers: no application traffic, the heartbeat timer expires, ResendRequest for everything sent, the timers expire again, second ResendRequest; both roles. TestVerifRaceEvents: a slow logout-event handler is running on the inbound goroutine while the application registers handlers and calls Stop. TestVerifRaceConn: the whole stack over a loopback socket (Acceptor.ListenAndServe + session, Initiator.Serve + session, 1 s timers, senders and resend requests on both sides, Close on both sides while senders run). TestVerifRaceRelogon: application senders and state queries keep running while the peer logs out and on again four times over the same connection"
+	ev.Coverage["race_scenario"] = "TestVerifRace (harness/session/race_test.go): 3 application senders, a writer loop, the inbound dispatch goroutine (TestRequest, Heartbeat, ResendRequest; then 2.3 s of silence so that the silence timer expires), state queries, event registration, both real timer goroutines with HeartBtInt=1, Session.Stop; both roles. TestVerifRaceTimers: no application traffic, the heartbeat timer expires, ResendRequest for everything sent, the timers expire again, second ResendRequest; both roles. TestVerifRaceEvents: a slow logout-event handler is running on the inbound goroutine while the application registers handlers and calls Stop. TestVerifRaceConn: the whole stack over a loopback socket (Acceptor.ListenAndServe + session, Initiator.Serve + session, 1 s timers, senders and resend requests on both sides, Close on both sides while senders run). TestVerifRaceRelogon: application senders and state queries keep running while the peer logs out and on again four times over the same connection. TestVerifRaceStopEarly: the application calls Stop the moment IsLogged turns true, overlapping the rest of the Logon processing, both roles"
 	sort.Strings(viol)
 	return viol, nil
 }
